@@ -61,6 +61,11 @@ class C02Facade(Harness):
         for inc in ("TF", "FT", "FF"):
             for form in ("rows", "h2"):
                 yield (f"{form}-N2-S2x1-i{inc}-wint-edges-kw", dict(N=2, shape=[2, 1], inc=[c == "T" for c in inc], weights="int", form=form, gap=None, spec="edges_kw", nan=False))
+        # weights of either sign: the missed weight may be negative (a negative cell is refused); one tuple of edges shared by all axes
+        for (n, shape) in [(2, (1, 1)), (2, (2, 1))]:
+            yield (f"rows-N{n}-S{_shape_name(shape)}-edges-wsigned", dict(N=n, shape=list(shape), inc=[True] * len(shape), weights="sreal", form="rows", gap=None, spec="edges", nan=False))
+        for (n, shape) in [(1, (1, 1)), (2, (2, 2)), (1, (2, 2, 2))]:
+            yield (f"rows-N{n}-S{_shape_name(shape)}-shared-tuple", dict(N=n, shape=list(shape), inc=[True] * len(shape), weights="int", form="rows", gap=None, spec="shared_tuple", nan=False))
         # numpy-style edge arrays (right edge always included by static_binning's default)
         for (n, shape) in ([(2, (2, 1)), (1, (1, 2, 2))] if tier == "quick" else [(2, (2, 1)), (2, (1, 2)), (3, (2, 2)), (2, (1, 2, 2))]):
             yield (f"rows-N{n}-S{_shape_name(shape)}-edges-wint", dict(N=n, shape=list(shape), inc=[True] * len(shape), weights="int",
@@ -76,6 +81,8 @@ class C02Facade(Harness):
             x["w"] = cx.reals("w", N)
             if cx.sym:
                 cx.assume(*[w >= 0 for w in x["w"]])
+        elif p["weights"] == "sreal":
+            x["w"] = cx.reals("w", N)
         x["l"] = [[cx.real(f"l{k}_{j}") for j in range(shape[k])] for k in range(D)]
         x["r"] = [[cx.real(f"r{k}_{j}") for j in range(shape[k])] for k in range(D)]
         if cx.sym:
@@ -87,6 +94,8 @@ class C02Facade(Harness):
                     cx.assume(z3.Not(consecutive(L, R)))
                 else:
                     cx.assume(consecutive(L, R))
+                if p["spec"] == "shared_tuple" and k:
+                    cx.assume(*[a == b for a, b in zip(L + R, [cx.t(i) for i in x["l"][0] + x["r"][0]])])
         return x
 
     def drive(self, E, p, x):
@@ -102,10 +111,12 @@ class C02Facade(Harness):
             bins = [np.asarray([[l, r] for l, r in zip(x["l"][k], x["r"][k])]) for k in range(D)]
         elif p["spec"] == "edges":
             bins = [np.asarray([x["l"][k][0]] + list(x["r"][k])) for k in range(D)]
+        elif p["spec"] == "shared_tuple":
+            bins = tuple([x["l"][0][0]] + list(x["r"][0]))
         else:
             bins = [SB([[l, r] for l, r in zip(x["l"][k], x["r"][k])], includes_right_edge=p["inc"][k]) for k in range(D)]
         if "w" in x:
-            kw["weights"] = np.asarray(x["w"]) if p["N"] else np.asarray(x["w"], dtype=int if p["weights"] == "int" else float)
+            kw["weights"] = np.asarray(x["w"], dtype=int if p["weights"] == "int" else float)
         rows = x["x"]
         if p["form"] == "rows":
             data = np.asarray(rows, dtype=float).reshape((p["N"], D))
@@ -125,9 +136,10 @@ class C02Facade(Harness):
         N, shape = p["N"], p["shape"]
         D = len(shape)
         raised = obs.get("raised")
-        yield "no_exception", raised is None
-        if raised is not None:
-            return
+        if p["weights"] != "sreal":
+            yield "no_exception", raised is None
+            if raised is not None:
+                return
         v = [[cx.t(c) for c in row] for row in x["x"]]
         nanrow = [z3.Or([cx.isnan(c) for c in row]) for row in x["x"]]
         w = [cx.t(i) for i in x["w"]] if "w" in x else [z3.IntVal(1)] * N
@@ -144,6 +156,15 @@ class C02Facade(Harness):
             return a
 
         cells = []
+        if p["weights"] == "sreal":
+            # weights of either sign: a histogram with a negative cell is refused (free arithmetics is off), nothing else is
+            refs = [zsum(z3.If(z3.And([z3.Not(nanrow[i])] + [memb(i, k, idx[k]) for k in range(D)]), w[i], 0) for i in range(N))
+                    for idx in itertools.product(*[range(s) for s in shape])]
+            negative = z3.Or([r < 0 for r in refs])
+            if raised is not None:
+                yield "refusal_only_for_negative_cell", z3.And(negative, z3.BoolVal(raised.name == "ValueError"))
+                return
+            yield "negative_cell_refused", z3.Not(negative)
         for idx in itertools.product(*[range(s) for s in shape]):
             conds = [z3.And([z3.Not(nanrow[i])] + [memb(i, k, idx[k]) for k in range(D)]) for i in range(N)]
             ref = zsum(z3.If(conds[i], w[i], 0) for i in range(N))
